@@ -227,6 +227,7 @@ def run(repo, chk):
         n = 0
         for p, ev in gf.inlined('gen_stmts'):
             arms = [e.text for e in ev if e.kind == 'case' and not e.origin]
+            arms = [a for a in arms if a.split(': ', 1)[0] == arms[0].split(': ', 1)[0]]
             if p.outcome != 'return' or not arms or arm not in arms[-1]:
                 continue
             n += 1
@@ -256,6 +257,7 @@ def run(repo, chk):
         _loop_attr = None
     for p, ev in gf.inlined('gen_block'):
         arms = [e.text for e in ev if e.kind == 'case' and not e.origin]
+        arms = [a for a in arms if a.split(': ', 1)[0] == arms[0].split(': ', 1)[0]]
         if not arms or 'LoopBlock' not in arms[-1] or p.outcome == 'raise':
             continue
         idx = {k: None for k in ('cond', 'info', 'body', 'cont', 'back')}
